@@ -312,9 +312,12 @@ def run(ctx):
                         # arity-preserving map over the same list that copies the names
                         val = n.value if isinstance(n, ast.Assign) else None
                         vt = " ".join(norm(val).split()) if val is not None else ""
-                        from .c02 import elementwise
+                        from .c02 import elementwise, elementwise_loop
 
                         ew = elementwise(val) if val is not None else None
+                        if ew is None and isinstance(val, ast.Name):
+                            # the loop spelling: `new = []; for a in node.args.args: new.append(...)`; node.args.args = new
+                            ew = elementwise_loop(f, val.id)
                         # one new arg per old arg, in order: an element-wise build over node.args.args without a filter
                         ok = ew is not None and norm(ew[0]) == "node.args.args" and not ew[3] and "filter(" not in vt
                         why = "args.args must be rebuilt by an arity-preserving map over node.args.args"
